@@ -786,6 +786,10 @@ func (ex *Exec) arithResult(st *State, x *ssa.BinOp, r *Term) *Term {
 		ex.assume(st, And(Ge(r, lo), Le(r, hi)))
 	} else if ex.ranged {
 		ex.assume(st, And(Ge(r, lo), Le(r, hi)))
+	} else if x.Op == token.SUB && u.Info()&types.IsUnsigned != 0 {
+		// unsigned subtraction wraps in Go, and "a - b" with a < b is the usual way an unsigned value goes wrong
+		// (cap - 1 with cap == 0): model exactly that case; additions and products stay mathematical
+		r = Ite(Lt(r, Int(0)), Add(r, Add(hi, Int(1))), r)
 	}
 	return r
 }
